@@ -201,6 +201,14 @@ impl HandshakeService {
     }
 }
 
+#[cfg(litep2p_verif)]
+impl HandshakeService {
+    /// Verification hook: the negotiation timer of one entry.
+    pub(crate) fn verif_timer(&mut self, peer: &PeerId, direction: Direction) -> Option<&mut Delay> {
+        self.substreams.get_mut(&(*peer, direction)).map(|entry| &mut entry.1)
+    }
+}
+
 impl Stream for HandshakeService {
     type Item = (PeerId, HandshakeEvent);
 
